@@ -200,7 +200,83 @@ def dicts_ok(res, M, D, dummy_before, where):
     return True
 
 
+# ---------------------------------------------------------------------------------------------------
+# lineage models: the same definition reached by adding growth / division / death mechanisms one at a time to a model
+# that was already initialised (and simulated) in between, against the model built at once
+def _lineage_observe(M, ls, seed):
+    from vf import lingen
+    from bioscrape.lineage import py_SimulateSingleCell
+    from bioscrape.random import py_seed_random
+    grid = np.array(ls["grid"], dtype=float)
+    py_seed_random(int(seed))
+    with specmod.quiet():
+        df = py_SimulateSingleCell(grid, Model=M)
+    single = {c: df[c].to_numpy(dtype=float) for c in df.columns}
+    recs, _ = lingen.simulate_lineage(M, ls["grid"], int(seed) + 1, ls["cells"])
+    return {"single": single, "lineage": recs, "counts": [list(M.py_get_event_counts()), list(M.py_get_rule_counts())]}
+
+
+def check_lineage_history(case):
+    from vf import lingen
+    res = R()
+    ls, seed = case["lspec"], case["seed"]
+    with specmod.quiet():
+        F = lingen.to_lineage_model(ls)                       # built at once
+        M = lingen.base_lineage_model(ls)                     # reached step by step
+    used = False
+    edit_after_use = False
+    for st_ in case["steps"]:
+        with specmod.quiet():
+            if st_[0] == "init":
+                M.py_initialize()
+                used = True
+            elif st_[0] == "sim":
+                try:
+                    lingen.simulate_lineage(M, ls["grid"][:6], st_[1], 1)
+                except ValueError:
+                    pass
+                used = True
+            else:
+                item = ls[st_[0]][st_[1]]
+                {"growth": lingen.add_growth, "division": lingen.add_division, "death": lingen.add_death}[st_[0]](M, item)
+                has_param = any(isinstance(v, str) and not any(ch in v for ch in "*+- ") for v in item["params"].values()) \
+                    or any(not isinstance(v, str) for v in item["params"].values()) or "prop" in item
+                res.label("edit:" + st_[0] + ":" + item["kind"] + (":with_parameter" if has_param else ":parameter_free"))
+                if used:
+                    edit_after_use = True
+    try:
+        exp = _lineage_observe(F, ls, seed)
+    except ValueError as e:
+        if "dividing too fast" in str(e):
+            res.skip = "cells_divide_faster_than_grid"
+            return res
+        raise
+    got = _lineage_observe(M, ls, seed)
+    diff = same_outcome(("ok", got["single"]), ("ok", exp["single"]), exact=True)
+    if diff is not None:
+        res.fail(("history_dependent_result", "lineage_single_cell"), difference=diff, steps=case["steps"])
+        return res
+    if got["counts"] != exp["counts"]:
+        res.fail(("history_dependent_result", "lineage_counts"), got=got["counts"], expected=exp["counts"])
+        return res
+    la, lb = got["lineage"], exp["lineage"]
+    if len(la) != len(lb):
+        res.fail(("history_dependent_result", "lineage_size"), got=len(la), expected=len(lb), steps=case["steps"])
+        return res
+    for i, (x, y) in enumerate(zip(la, lb)):
+        for k in ("time", "data", "volume"):
+            if x[k].shape != y[k].shape or not np.array_equal(x[k], y[k], equal_nan=True):
+                res.fail(("history_dependent_result", "lineage_" + k), schnitz=i, steps=case["steps"])
+                return res
+    res.nontrivial = edit_after_use and bool(ls["growth"] or ls["division"] or ls["death"])
+    if edit_after_use:
+        res.label("lineage_edit_after_initialise_or_simulate")
+    return res
+
+
 def check(case):
+    if case.get("kind") == "lineage_history":
+        return check_lineage_history(case)
     if case.get("kind") == "_repeat":
         # replay form of a case whose verdict varied between executions in one process: run it several times
         last = None
@@ -597,7 +673,30 @@ def cases(draw, max_extra):
             "final_grid": grid, "final_seed": draw(st.integers(1, 2 ** 40)), "final_modes": final_modes, "perm": perm}
 
 
+@st.composite
+def lineage_history_cases(draw):
+    from vf import lingen
+    ls = draw(lingen.lineage_specs(max_pts=24, rich=False))
+    items = [("growth", i) for i in range(len(ls["growth"]))] + [("division", i) for i in range(len(ls["division"]))] + \
+        [("death", i) for i in range(len(ls["death"]))]
+    order = list(draw(st.permutations(items)))
+    # within one class the declaration order is part of the definition
+    for cls in ("growth", "division", "death"):
+        pos = [k for k, it in enumerate(order) if it[0] == cls]
+        for j, k in enumerate(pos):
+            order[k] = (cls, j)
+    steps = []
+    for it in order:
+        for _ in range(draw(st.sampled_from([0, 1, 1, 2]))):
+            steps.append(draw(st.sampled_from([["init"], ["init"], ["sim", draw(st.integers(1, 2 ** 31))]])))
+        steps.append(list(it))
+    if draw(st.booleans()):
+        steps.append(["init"])
+    return {"kind": "lineage_history", "lspec": ls, "steps": steps, "seed": draw(st.integers(1, 2 ** 40))}
+
+
 def search(ctx):
     scale = ctx.job.get("scale", 1)
     n = (150000 if ctx.thorough else 10000) * scale
     ctx.run_hypothesis("histories", cases(14 if ctx.thorough else 8), check, ctx.share(n))
+    ctx.run_hypothesis("lineage_histories", lineage_history_cases(), check, ctx.share((30000 if ctx.thorough else 2500) * scale))
